@@ -1,15 +1,15 @@
 #!/bin/bash
 # usage: with_patch.sh <patch.diff> <property> [tier]   - runs the check of <property> against a scratch copy of /repo's
-# working tree with the patch applied (PYINS_REPO); /repo, evidence/ and replays/ are not touched; the copy is removed.
+# committed HEAD with the patch applied (PYINS_REPO); /repo, evidence/ and replays/ are not touched; the copy is removed.
 PATCH=$(readlink -f $1); PROP=$2; TIER=${3:-quick}
 HERE=$(cd "$(dirname "$0")/.." && pwd)
 D=$(mktemp -d /tmp/withpatch_XXXXXX)
 mkdir -p $D/evidence $D/replays
-(cd /repo && tar -c --exclude=__pycache__ pyins) | tar -x -C $D
+git -C /repo archive HEAD pyins | tar -x -C $D      # committed HEAD, so that a concurrent run_seeds.py (which patches the working tree) cannot leak in
 (cd $D && patch -p1 -s < $PATCH) || { echo "patch failed"; rm -rf $D; exit 3; }
 cd $HERE
 PYINS_REPO=$D PYTHONPATH=$D:$HERE PVF_EVIDENCE_DIR=$D/evidence PVF_REPLAY_DIR=$D/replays PYTHONWARNINGS=ignore PYTHONDONTWRITEBYTECODE=1 \
-  .venv/bin/python -m pvf.main $PROP --tier $TIER
+  .venv/bin/python -m pvf.main $PROP --tier $TIER "${@:4}"
 RC=$?
 rm -rf $D
 exit $RC
